@@ -404,8 +404,7 @@ def shapes(ctx):
     checks = [
         ('P[R <= 1] = amplitude * np.exp(1j * 2 * np.pi * self.data[0][k][0])'
          in s, 'pupil = amplitude exp(i 2 pi W) inside the unit disk'),
-        ('R = np.sqrt(x ** 2 + y ** 2)' in s and
-         'x = np.linspace(-1, 1, self.num_rays)' in s,
+        ('x = np.linspace(-1, 1, self.num_rays)' in s,
          'pupil grid spans [-1, 1]^2'),
         ('P = np.zeros_like(x, dtype=complex)' in s, 'zero outside the disk'),
         ('np.reshape(P, (self.num_rays, self.num_rays))' in s,
@@ -461,16 +460,92 @@ def shapes(ctx):
         res.fail(ctx.finding('PSF-SHAPE', n, n.node,
                              'PSF normalisation is not the unaberrated peak',
                              construct='psf normalisation'))
+    # the disc test of the pupil mask is the very predicate with which the
+    # 'uniform' distribution selected the samples (same expression, not just
+    # an algebraically equivalent one: sqrt(r2) <= 1 and r2 <= 1 differ by
+    # rounding on rim points, and the masked store then has the wrong length)
+    ud = P.func('UniformDistribution.generate_points')
+    res.saw(ud)
+
+    def disc_pred(fn, base_names):
+        """normal form of the left side of `<lhs> <= 1` used as a mask"""
+        ev_ = Ev(sym=Sym())
+        for b_ in base_names:
+            ev_.env[b_] = A(b_.upper())
+        out = []
+        for st_ in fn.node.body:
+            for sub in ast.walk(st_):
+                if isinstance(sub, ast.Subscript) and isinstance(
+                        sub.slice, ast.Compare) and isinstance(
+                        sub.slice.ops[0], ast.LtE) and \
+                        const_of(sub.slice.comparators[0]) == 1:
+                    try:
+                        out.append(ev_.ev(sub.slice.left))
+                    except Inconclusive:
+                        out.append(None)
+            if isinstance(st_, ast.Assign) and isinstance(
+                    st_.targets[0], ast.Name) and \
+                    st_.targets[0].id not in base_names:
+                try:
+                    ev_.env[st_.targets[0].id] = ev_.ev(st_.value)
+                except Inconclusive:
+                    pass
+        return ev_, out
+    ev_a, pa = disc_pred(f, ('x', 'y'))
+    ev_b, pb = disc_pred(ud, ('x', 'y'))
+    want_r2 = A('X') * A('X') + A('Y') * A('Y')
+    if pa and pb and all(p_ is not None and rat_eq(p_, want_r2)
+                         for p_ in pa + pb):
+        res.ok('pupil mask and uniform distribution use the same disc test '
+               'x^2 + y^2 <= 1')
+    else:
+        res.fail(ctx.finding(
+            'PUPIL-SHAPE', f, f.node,
+            f'the pupil mask tests {pa} <= 1 while the uniform distribution '
+            f'selected its samples with {pb} <= 1: on rim points the two can '
+            f'disagree by rounding and the OPD samples no longer fit the '
+            f'masked pupil (ValueError for some odd samplings)',
+            construct='pupil disc predicate'))
+    # zero padding: whatever the parity of grid_size - num_rays, the padded
+    # pupil is grid_size x grid_size (strehl_ratio and the MTF slices index
+    # grid_size // 2)
     pd_ = P.func('FFTPSF._pad_pupils')
-    s = Code(P, pd_)
-    if 'pad = (self.grid_size - pupil.shape[0]) // 2' in s and \
-            "np.pad(pupil, ((pad, pad), (pad, pad)), mode='constant', " \
-            "constant_values=0)" in s:
-        res.ok('zero padding to the grid size, symmetric')
+    res.saw(pd_)
+    padc = [c_ for c_ in ast.walk(pd_.node) if isinstance(c_, ast.Call) and
+            unparse(c_.func) == 'np.pad']
+    okp = False
+    if padc and len(padc[0].args) >= 2:
+        symp = Sym()
+        evp = Ev(sym=symp)
+        evp.env['pupil'] = 'pupil'
+        try:
+            for st_ in ast.walk(pd_.node):
+                if isinstance(st_, ast.Assign) and isinstance(
+                        st_.targets[0], ast.Name) and \
+                        st_.targets[0].id != 'pupil':
+                    evp.env[st_.targets[0].id] = evp.ev(st_.value)
+            w = evp.ev(padc[0].args[1])
+            n_ = A('pupil.shape[0]')
+            g_ = A('self.grid_size')
+            okp = isinstance(w, tuple) and len(w) == 2 and all(
+                isinstance(ax, tuple) and len(ax) == 2 and
+                symp.eq(ax[0] + n_ + ax[1], g_) for ax in w)
+        except Inconclusive:
+            okp = False
+        kwp = {k.arg: unparse(k.value) for k in padc[0].keywords}
+        okp = okp and kwp.get('constant_values', '0') in ('0', '0.0') and \
+            kwp.get('mode', "'constant'") == "'constant'"
+    if okp:
+        res.ok('zero padding: before + num_rays + after == grid_size on both '
+               'axes')
     else:
         res.fail(ctx.finding('PSF-SHAPE', pd_, pd_.node,
-                             'pupils are not zero-padded symmetrically to the '
-                             'grid size', construct='psf padding'))
+                             'the zero-padded pupil is not grid_size x '
+                             'grid_size for every num_rays (with symmetric '
+                             'padding (g - n) // 2 an odd difference gives '
+                             'grid_size - 1, and the central pixel read by '
+                             'strehl_ratio is no longer the peak)',
+                             construct='psf padding'))
     st = P.func('FFTPSF.strehl_ratio')
     if unparse(st.node.body[-1]) == \
             'return self.psf[self.grid_size // 2, self.grid_size // 2] / 100':
@@ -682,4 +757,10 @@ def c04_marginal(ctx):
     return _r(ctx)
 
 
-RULES = [c04_marginal, no_stale, psf_norm, dft_sampling, working_fno, def_assign, shapes, geometric]
+def c03_trace_entry(ctx):
+    """shared with C03: the pupil samples requested are the ones traced
+    (vignetting factors applied exactly once on the way to the generator)"""
+    from .C03 import trace_entry as _r
+    return _r(ctx)
+
+RULES = [c03_trace_entry, c04_marginal, no_stale, psf_norm, dft_sampling, working_fno, def_assign, shapes, geometric]
